@@ -220,7 +220,9 @@ def replay_behaviour(beh, consts, rnd):
                 d, rest = bits.tx.tx_deser(w.mempool[-1])
                 want = st["mempool"][-1]
                 ins = [(ti["txid"], ti["vout"]) for ti in d["txins"]]
-                if rest or ins != [realid.get(tuple(i)) for i in want["ins"]]:
+                # the ORDER of the inputs inside the transaction is not constrained by the property (BIP69 sorting is as good
+                # as the order the node reported them in): the spent outpoints are compared as a multiset
+                if rest or sorted(ins) != sorted(realid.get(tuple(i)) or ("?", -1) for i in want["ins"]):
                     return steps, {"action": f"Send{tuple(params)}", "what": "inputs", "expected": want["ins"], "got": ins}, w.sends
                 outs = [{"owner": w.owner_of.get(bytes.fromhex(o["scriptpubkey"]), 0), "amt": o["value"]} for o in d["txouts"]]
                 if outs != want["outs"]:
